@@ -4,9 +4,66 @@ package rollout
 // routes are written only in the TrafficRouting sub-state, which is entered only after the step's upgrade was reported
 // ready; the first step pins the stable Service before any pod is upgraded.
 
+import (
+	"fmt"
+
+	"github.com/openkruise/rollouts/api/v1beta1"
+	"github.com/openkruise/rollouts/pkg/verifrt"
+	metav1 "k8s.io/apimachinery/pkg/apis/meta/v1"
+	gatewayv1beta1 "sigs.k8s.io/gateway-api/apis/v1beta1"
+)
+
 func VerifC03_CanaryInit()              { c02Canary(0) }
 func VerifC03_CanaryUpgrade()           { c02Canary(1) }
 func VerifC03_CanaryTrafficRouting()    { c02Canary(2) }
 func VerifC03_BlueGreenInit()           { c02BlueGreen(0) }
 func VerifC03_BlueGreenUpgrade()        { c02BlueGreen(1) }
 func VerifC03_BlueGreenTrafficRouting() { c02BlueGreen(2) }
+
+// VerifC03_TrafficContextCarriesTheCurrentStep: everything the traffic-routing manager writes for a step comes from
+// the context built here, so for every step of the plan — the first, a middle one, the last — the context must carry
+// that step's own traffic strategy (weight, matches, header modifier), the routing references of the strategy in
+// use, and the revisions recorded in the status.
+func VerifC03_TrafficContextCarriesTheCurrentStep() {
+	n := verifrt.Concrete(verifrt.IntRange("nSteps", 1, verifrt.Bound("nSteps.max", 3, 5)))
+	cur := verifrt.Concrete(verifrt.IntRange("st.currentStepIndex", 1, n))
+	blueGreen := verifrt.Bool("blueGreen")
+	var steps []v1beta1.CanaryStep
+	for i := 0; i < n; i++ {
+		t := fmt.Sprintf("%d%%", verifrt.IntRange("step.traffic", 0, 100))
+		st := v1beta1.CanaryStep{}
+		st.Traffic = &t
+		if i%2 == 1 {
+			st.Matches = []v1beta1.HttpRouteMatch{{Headers: []gatewayv1beta1.HTTPHeaderMatch{{Name: gatewayv1beta1.HTTPHeaderName(fmt.Sprintf("x-step-%d", i+1)), Value: "1"}}}}
+		}
+		steps = append(steps, st)
+	}
+	trs := []v1beta1.TrafficRoutingRef{{Service: "svc", Ingress: &v1beta1.IngressTrafficRouting{Name: "ing"}}}
+	r := &v1beta1.Rollout{ObjectMeta: metav1.ObjectMeta{Namespace: "ns", Name: "ro", UID: "ro-uid"}}
+	common := v1beta1.CommonStatus{CurrentStepIndex: int32(cur), StableRevision: "stable-rev", PodTemplateHash: "pth-new"}
+	if blueGreen {
+		r.Spec.Strategy.BlueGreen = &v1beta1.BlueGreenStrategy{Steps: steps, TrafficRoutings: trs}
+		r.Status.BlueGreenStatus = &v1beta1.BlueGreenStatus{CommonStatus: common}
+	} else {
+		r.Spec.Strategy.Canary = &v1beta1.CanaryStrategy{Steps: steps, TrafficRoutings: trs}
+		r.Status.CanaryStatus = &v1beta1.CanaryStatus{CommonStatus: common}
+	}
+	c := &RolloutContext{Rollout: r, NewStatus: r.Status.DeepCopy(), Workload: vWorkload()}
+	tc := newTrafficRoutingContext(c)
+	verifrt.Assert(tc != nil, "C03.context.built")
+	if tc == nil {
+		return
+	}
+	want := steps[cur-1]
+	verifrt.Assert(tc.Strategy.Traffic != nil && *tc.Strategy.Traffic == *want.Traffic, "C03.context.carriesTheCurrentStepsWeight")
+	verifrt.Assert(len(tc.Strategy.Matches) == len(want.Matches), "C03.context.carriesTheCurrentStepsMatches")
+	if len(want.Matches) == 1 && len(tc.Strategy.Matches) == 1 {
+		verifrt.Assert(len(tc.Strategy.Matches[0].Headers) == 1 && tc.Strategy.Matches[0].Headers[0].Name == want.Matches[0].Headers[0].Name, "C03.context.carriesTheCurrentStepsMatches")
+	}
+	verifrt.Assert(len(tc.ObjectRef) == 1 && tc.ObjectRef[0].Service == "svc", "C03.context.carriesTheRoutingRefs")
+	verifrt.Assert(tc.Namespace == "ns" && tc.StableRevision == "stable-rev" && tc.CanaryRevision == "pth-new", "C03.context.carriesTheRecordedRevisions")
+	verifrt.Assert(tc.OwnerRef.UID == r.UID && tc.OwnerRef.Name == r.Name, "C03.context.ownedByTheRollout")
+	if cur == n {
+		verifrt.Cover("last-step")
+	}
+}
